@@ -83,6 +83,8 @@ type recEngine struct {
 	namesSeen   map[string]bool
 	// unknownIDs: the server died inside an ingest call that introduced a series, so its id is not known
 	unknownIDs bool
+	// walLowered: the limits of the datapoint WAL were lowered in the first server
+	walLowered bool
 
 	// after the death of the first server
 	ds          *diskState
@@ -136,6 +138,137 @@ func (e *recEngine) start() error {
 	}
 	e.walDir = paths["wal"]
 	e.hostDir = paths["data"] + paths["host"] + "/"
+	return nil
+}
+
+// setWalLimits lowers the limits of the datapoint WAL in the running server (0 = keep the default).
+func (e *recEngine) setWalLimits(flush, max int) error {
+	if flush == 0 && max == 0 {
+		return nil
+	}
+	if err := e.c.Call(&sut.Req{Op: "c10.wallimits", Ints: map[string]int64{"flush": int64(flush), "maxbytes": int64(max)}}, nil); err != nil {
+		return e.died("wallimits", err)
+	}
+	e.walLowered = true
+	return nil
+}
+
+// logsOf groups the datapoint WAL files into the rotated logs of their blocks, files in the order of
+// their index.
+func logsOf(wals []walFile) (map[string][]walFile, []string) {
+	logs := map[string][]walFile{}
+	for _, wf := range wals {
+		logs[wf.group()] = append(logs[wf.group()], wf)
+	}
+	names := make([]string, 0, len(logs))
+	for g := range logs {
+		sort.Slice(logs[g], func(a, b int) bool { return logs[g][a].idx < logs[g][b].idx })
+		names = append(names, g)
+	}
+	sort.Strings(names)
+	return logs, names
+}
+
+// cutLog cuts the newest file of one rotated log the way a crash during its creation or during its
+// last append would have left it. The datapoints of the blocks that are no longer complete were not
+// "appended completely" in the history that the cut stands for: they are no longer owed and, like
+// any datapoint that never reached the log, must not come back.
+func (e *recEngine) cutLog(kind string, group int) error {
+	before, err := readDPWals(e.walDir)
+	if err != nil {
+		return pt.Inconclusivef("reading the WAL directory: %v", err)
+	}
+	logs, names := logsOf(before)
+	var withData []string
+	for _, g := range names {
+		n := 0
+		for _, wf := range logs[g] {
+			n += len(wf.dps)
+		}
+		if n > 0 {
+			withData = append(withData, g)
+		}
+	}
+	if len(withData) == 0 {
+		e.o.Class("cut_no_log_with_data")
+		return nil
+	}
+	log := logs[withData[group%len(withData)]]
+	last := log[len(log)-1]
+	path := filepath.Join(e.walDir, last.name)
+	ends, size := blockEnds(path)
+	blockCut := kind != "zero" && kind != "empty"
+	if blockCut && size <= 1 && len(log) > 1 {
+		// the newest file holds no block: the crash of this history comes earlier, during the append
+		// after which the log would have been continued in a new file
+		if err := os.Remove(path); err != nil {
+			return pt.Inconclusivef("cut: %v", err)
+		}
+		e.o.Class("cut_before_the_wal_rotation")
+		log = log[:len(log)-1]
+		last = log[len(log)-1]
+		path = filepath.Join(e.walDir, last.name)
+		ends, size = blockEnds(path)
+	}
+	start := 1 // start of the last block (complete or torn)
+	if len(ends) >= 2 {
+		start = ends[len(ends)-2]
+	}
+	if len(ends) >= 1 && size > ends[len(ends)-1] {
+		start = ends[len(ends)-1] // the kill itself left a torn block at the end
+	}
+	to := size
+	switch kind {
+	case "zero":
+		to = 0
+	case "empty":
+		to = 1
+	case "len":
+		to = start + 2
+	case "hdr":
+		to = start + 8
+	case "mid":
+		to = start + 8 + (size-start-8)/2
+	case "last":
+		to = size - 1
+	}
+	if to >= size || to < 0 || (blockCut && size-start < 9) {
+		e.o.Class("cut_not_applicable_newest_file_has_no_block")
+		return nil
+	}
+	if err := os.Truncate(path, int64(to)); err != nil {
+		return pt.Inconclusivef("cut: %v", err)
+	}
+	after, err := readDPWals(e.walDir)
+	if err != nil {
+		return pt.Inconclusivef("reading the WAL directory: %v", err)
+	}
+	kept := 0
+	for _, wf := range after {
+		if wf.name == last.name {
+			kept = len(wf.dps)
+		}
+	}
+	if kept > len(last.dps) {
+		return pt.Inconclusivef("cut: the file yields more datapoints after the cut")
+	}
+	dropped := 0
+	for _, dp := range last.dps[kept:] {
+		for i := range e.series {
+			if e.haveTsid[i] && e.tsidOf[i] == dp.Tsid {
+				delete(e.seenLogged[i], dp.Timestamp)
+				dropped++
+			}
+		}
+	}
+	e.o.Class("cut_" + kind)
+	if len(log) > 1 {
+		e.o.Class("cut_in_rotated_log")
+	}
+	if dropped > 0 {
+		e.o.Class("cut_removed_logged_datapoints")
+	}
+	e.o.Count("datapoints_removed_by_cut", int64(dropped))
 	return nil
 }
 
@@ -507,6 +640,7 @@ func (e *recEngine) postMortem() error {
 	if multiBlockFile {
 		o.Class("several_wal_blocks")
 	}
+	e.classifyLogs(ds)
 	if len(ds.ttErr) > 0 {
 		o.Class("tag_tree_unreadable_after_kill")
 	}
@@ -538,6 +672,65 @@ func (e *recEngine) postMortem() error {
 		e.namesLogged[nme] = true // seen in the name WAL while the server was alive: stays owed
 	}
 	return nil
+}
+
+// classifyLogs records the shape of the rotated datapoint logs that the dead server left: how many
+// files the log of a block has and on which side of a WAL rotation the crash (or cut) fell.
+func (e *recEngine) classifyLogs(ds *diskState) {
+	o := e.o
+	logs, names := logsOf(ds.wals)
+	maxFiles := 0
+	rotated := false
+	for _, g := range names {
+		log := logs[g]
+		earlier := 0
+		for _, wf := range log[:len(log)-1] {
+			earlier += len(wf.dps)
+		}
+		total := earlier + len(log[len(log)-1].dps)
+		if total == 0 {
+			continue // the untouched log of an idle shard
+		}
+		if len(log) > maxFiles {
+			maxFiles = len(log)
+		}
+		last := log[len(log)-1]
+		ends, size := blockEnds(filepath.Join(e.walDir, last.name))
+		torn := size > 1 && (len(ends) == 0 || size > ends[len(ends)-1])
+		if len(log) == 1 {
+			if e.walLowered {
+				o.Class("wal_limits_lowered_log_not_rotated_yet")
+			}
+			if torn {
+				o.Class("wal_single_file_ends_in_torn_block")
+			}
+			continue
+		}
+		rotated = true
+		if earlier == 0 {
+			continue
+		}
+		switch {
+		case size == 0:
+			o.Class("wal_rotated_newest_file_without_version_byte")
+		case len(ends) == 0 && !torn:
+			o.Class("wal_rotated_newest_file_empty")
+		case len(ends) == 0 && torn:
+			o.Class("wal_rotated_newest_file_torn_first_block")
+		case torn:
+			o.Class("wal_rotated_newest_file_blocks_then_torn_block")
+		default:
+			o.Class("wal_rotated_newest_file_complete_blocks")
+		}
+		if last.idx >= 10 {
+			o.Class("wal_rotated_two_digit_file_index")
+		}
+	}
+	if rotated {
+		o.Class("wal_rotated_before_crash")
+		o.Class("wal_rotated_files_" + bucketN(maxFiles))
+	}
+	o.Max("wal_files_of_one_block_max", int64(maxFiles))
 }
 
 // verify starts a server on the data directory and checks what it returns against what is owed.
